@@ -6,6 +6,7 @@ import (
 	"os"
 	"reflect"
 	"sort"
+	"strconv"
 	"strings"
 	"testing"
 	"time"
@@ -16,6 +17,7 @@ import (
 
 	execution "github.com/furiko-io/furiko/apis/execution/v1alpha1"
 	"github.com/furiko-io/furiko/pkg/execution/controllers/croncontroller"
+	"github.com/furiko-io/furiko/pkg/execution/util/jobconfig"
 
 	"verif/harness/pbt"
 	"verif/harness/sim"
@@ -577,6 +579,107 @@ func TestC02_history(t *testing.T) {
 	})
 	e2Check(t, "C02", "history", 1500, e2RuleCommon+"with cron ticks, duplicate / out-of-order re-delivery of old (JobConfig, schedule time) keys, Job-cache lag, faults on create (rejected, applied-but-reported-failed), crashes and restarts; oracle after every step: no two Jobs share (owner JobConfig UID, schedule-time annotation); name = <jobconfig>-<unix>, one controller reference, UID label; non-trivial = a key was re-delivered or the controller restarted; distinct = distinct trace",
 		p, []string{"C02"}, func(l []string) bool { return hasAny(l, "cron-key-redelivered", "restart", "crashed") })
+}
+
+// TestC02_newJob: the object the cron controller submits for (JobConfig, schedule
+// time), before any webhook sees it (the validating webhook would mask some of
+// these defects by refusing the Job, which only turns them into "the JobConfig
+// never runs"): name, recorded schedule time, owner and UID label are functions
+// of the JobConfig and the schedule time alone, whatever the job template carries.
+type NewJobCase struct {
+	JC   *execution.JobConfig `json:"jc"`
+	Unix int64                `json:"unix"`
+}
+
+func TestC02_newJob(t *testing.T) {
+	pbt.Check(t, pbt.Opts{ID: "C02", Name: "newjob", Checks: 4000, ThoroughMul: 10,
+		Rule: "random JobConfig (names with dots/digits, options, template labels/annotations that may contain furiko's reserved keys: schedule-time annotation, JobConfig UID label) x schedule time; NewJobFromJobConfig(Scheduled) is called twice; oracle: name == <jobconfig>-<unix>, schedule-time annotation == unix, exactly one controller owner reference (that JobConfig, its UID), UID label == JobConfig UID, other template metadata copied, both calls equal; non-trivial = the template carries a reserved key; distinct = distinct case"},
+		func(t *rapid.T) NewJobCase {
+			name := rapid.OneOf(rapid.StringMatching(`[a-z]([a-z0-9.-]{0,20}[a-z0-9])?`), rapid.SampledFrom([]string{"a.1646370000", "x.0", "job.config.1650000000", "a-1"})).Draw(t, "name")
+			jc := genJobConfig(t, jcGenOpts{Name: name, ValidOpts: true, WithCron: 1})
+			switch rapid.IntRange(0, 4).Draw(t, "reserved") {
+			case 0:
+				jc.Spec.Template.Annotations = map[string]string{"note": "b", annScheduleTime: "1600000000"}
+			case 1:
+				jc.Spec.Template.Labels = map[string]string{"team": "a", labelJobConfigUID: "stale-uid"}
+			case 2:
+				jc.Spec.Template.Labels = map[string]string{labelJobConfigUID: "stale-uid"}
+				jc.Spec.Template.Annotations = map[string]string{annScheduleTime: "1600000000"}
+			}
+			return NewJobCase{JC: jc, Unix: rapid.OneOf(rapid.Int64Range(0, 4102444800), rapid.Int64Range(1640000000, 1700000000)).Draw(t, "unix")}
+		}, runNewJobCase)
+}
+
+func runNewJobCase(c NewJobCase) pbt.Result {
+	res := pbt.Result{}
+	_, ra := c.JC.Spec.Template.Annotations[annScheduleTime]
+	_, rl := c.JC.Spec.Template.Labels[labelJobConfigUID]
+	res.NonTrivial = ra || rl
+	if ra {
+		res.Labels = append(res.Labels, "template-has-schedule-time-annotation")
+	}
+	if rl {
+		res.Labels = append(res.Labels, "template-has-uid-label")
+	}
+	ts := time.Unix(c.Unix, 0)
+	j1, err := jobconfig.NewJobFromJobConfig(c.JC.DeepCopy(), execution.JobTypeScheduled, ts)
+	if err != nil {
+		res.Labels = append(res.Labels, "not-instantiable")
+		return res
+	}
+	j2, err := jobconfig.NewJobFromJobConfig(c.JC.DeepCopy(), execution.JobTypeScheduled, ts)
+	if err != nil {
+		res.Violation = pbt.V("C02", "newjob/nondeterministic", "second instantiation failed: %v", err)
+		return res
+	}
+	want := fmt.Sprintf("%s-%d", c.JC.Name, c.Unix)
+	switch {
+	case j1.Name != want:
+		res.Violation = pbt.V("C02", "newjob/name", "Job for %s at %d is named %q, want %q", c.JC.Name, c.Unix, j1.Name, want)
+	case j1.Namespace != c.JC.Namespace:
+		res.Violation = pbt.V("C02", "newjob/namespace", "Job namespace %q, JobConfig namespace %q", j1.Namespace, c.JC.Namespace)
+	case j1.Annotations[annScheduleTime] != strconv.FormatInt(c.Unix, 10):
+		res.Violation = pbt.V("C02", "newjob/schedule-time", "Job %s records schedule time %q, want %d (template annotations %v)", j1.Name, j1.Annotations[annScheduleTime], c.Unix, c.JC.Spec.Template.Annotations)
+	case j1.Labels[labelJobConfigUID] != string(c.JC.UID):
+		res.Violation = pbt.V("C02", "newjob/uid-label", "Job %s is labelled with JobConfig UID %q, want %q (template labels %v)", j1.Name, j1.Labels[labelJobConfigUID], c.JC.UID, c.JC.Spec.Template.Labels)
+	case j1.Spec.Type != execution.JobTypeScheduled:
+		res.Violation = pbt.V("C02", "newjob/type", "Job type %q", j1.Spec.Type)
+	}
+	if res.Violation != nil {
+		return res
+	}
+	nctl := 0
+	for _, o := range j1.OwnerReferences {
+		if o.Controller != nil && *o.Controller {
+			nctl++
+			if o.Kind != "JobConfig" || o.Name != c.JC.Name || o.UID != c.JC.UID {
+				res.Violation = pbt.V("C02", "newjob/owner", "Job %s is controlled by %s %s (%s), want JobConfig %s (%s)", j1.Name, o.Kind, o.Name, o.UID, c.JC.Name, c.JC.UID)
+				return res
+			}
+		}
+	}
+	if nctl != 1 {
+		res.Violation = pbt.V("C02", "newjob/owner", "Job %s has %d controller references", j1.Name, nctl)
+		return res
+	}
+	for k, v := range c.JC.Spec.Template.Labels {
+		if k != labelJobConfigUID && j1.Labels[k] != v {
+			res.Violation = pbt.V("C02", "newjob/template-label-lost", "template label %s=%s became %q", k, v, j1.Labels[k])
+			return res
+		}
+	}
+	for k, v := range c.JC.Spec.Template.Annotations {
+		if k != annScheduleTime && j1.Annotations[k] != v {
+			res.Violation = pbt.V("C02", "newjob/template-annotation-lost", "template annotation %s=%s became %q", k, v, j1.Annotations[k])
+			return res
+		}
+	}
+	b1, _ := json.Marshal(j1)
+	b2, _ := json.Marshal(j2)
+	if string(b1) != string(b2) {
+		res.Violation = pbt.V("C02", "newjob/nondeterministic", "two instantiations for the same JobConfig and schedule time differ:\n %s\n %s", b1, b2)
+	}
+	return res
 }
 
 // keyRoundTrip: C02 pure part.
